@@ -55,9 +55,9 @@ ARG_POOLS = {
     ("Query", "categoriesByKinds"): [[("kinds", ["BOOK", "FURNITURE"])]],
     ("Query", "filterCategories"): [[("filter", {"category": "ELECTRONICS", "pagination": {"page": 1, "perPage": 2}})]],
     ("Query", "search"): [[("input", {"query": "x", "limit": 4})]],
-    ("Query", "nullableFieldsTypeById"): [[("id", "full-data")], [("id", "partial-data")], [("id", "minimal-data")]],
-    ("Query", "blogPostById"): [[("id", "minimal")], [("id", "complete")], [("id", "7")]],
-    ("Query", "authorById"): [[("id", "minimal")], [("id", "complete")], [("id", "7")]],
+    ("Query", "nullableFieldsTypeById"): [[("id", "full-data")], [("id", "partial-data")], [("id", "minimal-data")], [("id", "not-found")]],
+    ("Query", "blogPostById"): [[("id", "simple")], [("id", "complex")], [("id", "not-found")], [("id", "7")]],
+    ("Query", "authorById"): [[("id", "minimal")], [("id", "experienced")], [("id", "not-found")], [("id", "7")]],
     ("Query", "testContainer"): [[("id", "t1")]],
     ("Category", "productCount"): [[("filters", {"minPrice": 1.5, "inStock": True})], [("filters", None)]],
     ("Category", "popularityScore"): [[("threshold", 5)], [("threshold", None)]],
